@@ -545,7 +545,8 @@ def attempt(prop, violations, anchors, exp, repo, workdir, timeout=420):
             no_panic_gap = not any((r_[1] == 'PANIC') != (r_[2] == 'PANIC') for r_ in rws)
             notes.append(dict(tag=v['tag'], fn=v.get('fn'), found=False, call=call,
                               indistinguishable=bool(evaluated and len(rws) == TRIALS and n_req >= 100 and no_panic_gap),
-                              trials=len(rws), trials_with_requires_true=n_req,
+                              trials=len(rws), trials_with_requires_true=n_req, clauses_evaluated=evaluated, panic_on_one_side_only=not no_panic_gap,
+                              clause_evaluation_dropped=sp.get('eval_dropped'),
                               reason='%d pseudo-random inputs (generic, special-value, affine and repeated-value modes): no input refutes a clause, '
                                      'no difference from HEAD' % TRIALS))
     return notes
